@@ -4,6 +4,8 @@ import (
 	"bytes"
 	"crypto/cipher"
 	"fmt"
+	"runtime"
+	"unsafe"
 
 	gcipher "github.com/emmansun/gmsm/cipher"
 	"github.com/emmansun/gmsm/sm4"
@@ -152,27 +154,24 @@ func newBufs(max int) *bufs {
 
 func (b *bufs) all() []*mon.Guard { return []*mon.Guard{b.nonce, b.pt, b.aad, b.dst, b.ct, b.out} }
 
-// arena picks small guards (cheap canary scans) unless the case is large.
+// arena hands out the smallest set of guards that holds the case: the canary scan
+// of mon.Guard.Check is linear in the size of the region.
 type arena struct {
-	small, big *bufs
+	sets [3]*bufs
 }
 
-const smallMax = 2 * 4096
+var arenaSizes = [3]int{4096, 4 * 4096, 32 * 4096}
 
 func (a *arena) pick(need int) *bufs {
-	if need <= smallMax {
-		if a.small == nil {
-			a.small = newBufs(smallMax)
+	for i, sz := range arenaSizes {
+		if need <= sz {
+			if a.sets[i] == nil {
+				a.sets[i] = newBufs(sz)
+			}
+			return a.sets[i]
 		}
-		return a.small
 	}
-	if need > 1<<18 {
-		panic("c04: case larger than the big arena")
-	}
-	if a.big == nil {
-		a.big = newBufs(1 << 18)
-	}
-	return a.big
+	panic("c04: case larger than the biggest arena")
 }
 
 // in places an input. A zero-length input is handed over as nil (lo) or as an
@@ -207,16 +206,21 @@ func (m dstMode) String() string {
 // placed is a destination prepared in a guard buffer.
 type placed struct {
 	mode   dstMode
-	buf    []byte // the whole marker-filled buffer (nil for dNil)
+	buf    []byte // the marker-filled buffer dst is cut from; cap(dst) ends at len(buf) (nil for dNil)
+	fence  []byte // marker bytes that follow buf in memory (only when buf does not end at the guard page)
 	dst    []byte // the dst argument
 	input  []byte // for dInPlace: the input slice inside buf
 	prefix []byte // copy of the prefix bytes
 	need   int    // bytes the call appends
 }
 
+const fenceLen = 16
+
 // place prepares dst for a call that appends need bytes. input is the plaintext
 // (Seal) or the ciphertext||tag (Open) - used by the in-place mode, where
-// len(input) may exceed need (Open) or be smaller (Seal).
+// len(input) may exceed need (Open) or be smaller (Seal). With hi the capacity of
+// dst ends at the guard page (a write beyond it faults); otherwise dst starts at
+// the guard page and is followed by a fence of marker bytes outside its capacity.
 func place(g *mon.Guard, r *mon.Rand, mode dstMode, hi bool, need int, input []byte) placed {
 	p := placed{mode: mode, need: need}
 	if mode == dNil {
@@ -246,13 +250,21 @@ func place(g *mon.Guard, r *mon.Rand, mode dstMode, hi bool, need int, input []b
 			room += r.Range(1, 48)
 		}
 	}
-	p.buf = g.Side(pl+room, hi)
+	if hi {
+		p.buf = g.Hi(pl + room)
+	} else {
+		whole := g.Lo(pl + room + fenceLen)
+		p.buf, p.fence = whole[:pl+room:pl+room], whole[pl+room:]
+	}
 	for i := range p.buf {
 		p.buf[i] = marker
 	}
+	for i := range p.fence {
+		p.fence[i] = marker
+	}
 	copy(p.buf, p.prefix)
 	p.dst = p.buf[:pl]
-	if mode == dInPlace {
+	if p.mode == dInPlace {
 		copy(p.buf[pl:], input)
 		p.input = p.buf[pl : pl+len(input)]
 	}
@@ -260,11 +272,11 @@ func place(g *mon.Guard, r *mon.Rand, mode dstMode, hi bool, need int, input []b
 }
 
 // checkAfter verifies what the call may not have touched: the prefix (in the
-// result and in the buffer), every byte of the buffer beyond the appended region,
-// and - when the call could not use the buffer - the whole buffer. wrote is the
-// number of bytes legitimately written at buf[len(prefix):] (0 if the call had to
-// allocate or failed before writing).
-func (p *placed) checkAfter(c *mon.Case, what string, ret []byte, ok bool) {
+// result and in the buffer), every byte of the buffer beyond the appended region
+// (all of it beyond the prefix when the capacity was too small) and the fence
+// behind the capacity. over > 0: the open finding shortTagID explains zero bytes
+// stored into the first over bytes after the appended region (see shortTagOverrun).
+func (p *placed) checkAfter(c *mon.Case, what string, ret []byte, ok bool, over int) {
 	if p.mode == dNil {
 		return
 	}
@@ -275,7 +287,8 @@ func (p *placed) checkAfter(c *mon.Case, what string, ret []byte, ok bool) {
 	if ok && (len(ret) < pl || !bytes.Equal(ret[:pl], p.prefix)) {
 		c.Fail("mismatch", "%s: result does not start with the %d bytes that were in dst (only appending is allowed)", what, pl)
 	}
-	from := pl + p.need
+	end := pl + p.need // end of the appended region
+	from := end
 	if p.mode == dShort {
 		from = pl // the buffer cannot hold the result: nothing of it may be written
 	}
@@ -283,12 +296,98 @@ func (p *placed) checkAfter(c *mon.Case, what string, ret []byte, ok bool) {
 		// Open in place: the tag bytes of the input follow the output region; they are input, not spare
 		from = pl + len(p.input)
 	}
-	for i := from; i < len(p.buf); i++ {
-		if p.buf[i] != marker {
-			c.Fail("oob", "%s: wrote at dst offset %d (value %#x), outside the %d appended bytes after the %d-byte prefix (dst mode %v, cap %d)", what, i, p.buf[i], p.need, pl, p.mode, cap(p.dst))
-			break
+	at := func(i int) byte {
+		if i < len(p.buf) {
+			return p.buf[i]
+		}
+		return p.fence[i-len(p.buf)]
+	}
+	known := 0
+	for i := from; i < len(p.buf)+len(p.fence); i++ {
+		b := at(i)
+		if b == marker {
+			continue
+		}
+		if p.mode != dShort && i >= end && i < end+over && b == 0 {
+			known++
+			continue
+		}
+		where := "inside the spare capacity of dst"
+		if i >= len(p.buf) {
+			where = "BEYOND the capacity of dst"
+		}
+		c.Fail("oob", "%s: wrote at dst offset %d (value %#x) %s, outside the %d appended bytes after the %d-byte prefix (dst mode %v, cap %d)", what, i, b, where, p.need, pl, p.mode, cap(p.dst))
+		return
+	}
+	if known > 0 {
+		where := "inside the spare capacity of dst"
+		if end+known > len(p.buf) {
+			where = "BEYOND the capacity of dst"
+		}
+		c.Known(shortTagID, "oob", "%s: stored %d zero byte(s) right after the %d appended bytes, %s (dst mode %v, prefix %d, cap %d): the assembly writes the final partial block as a whole 16-byte block", what, known, p.need, where, p.mode, pl, cap(p.dst))
+	}
+}
+
+// ---------------------------------------------------------------------------
+// open finding: fused SM4-GCM with tags shorter than 16 bytes
+
+// shortTagID: internal/sm4/gcm_amd64.s handles a final partial block of r bytes by
+// storing (gcmSm4Enc: "I assume there is always space, due to TAG in the end of the
+// CT") or loading (gcmSm4Dec: "I assume there is TAG attached to the ctx") a whole
+// 16-byte block at its offset. That is only inside ciphertext||tag when r + tagSize
+// >= 16; with cipher.NewGCMWithTagSize(12..14) and r <= 15 - tagSize, Seal stores
+// 16-r-tagSize zero bytes behind the tag and Open reads as many bytes behind it.
+const shortTagID = "gcm-short-tag-tail-overrun"
+
+// shortTagOverrun is the predicate of the finding: the number of bytes behind
+// ciphertext||tag that the fused implementation touches for a message of n bytes
+// (0: the finding does not apply).
+func shortTagOverrun(a cipher.AEAD, ts, n int) int {
+	if n < 0 || fmt.Sprintf("%T", a) != "*sm4.gcmAsm" {
+		return 0
+	}
+	r := n % 16
+	if r == 0 || r+ts >= 16 {
+		return 0
+	}
+	return 16 - r - ts
+}
+
+func endOf(b []byte) uintptr {
+	if cap(b) == 0 {
+		return 0
+	}
+	return uintptr(unsafe.Pointer(unsafe.SliceData(b))) + uintptr(len(b))
+}
+
+// callLib is c.Call with one addition: a memory fault whose address lies in the
+// over bytes that follow one of ends (buffers that stop at a guard page) is the
+// model of the open finding shortTagID and is routed to c.Known.
+func callLib(c *mon.Case, what string, f func(), over int, ends ...[]byte) bool {
+	c.Event("calls", 1)
+	p := mon.Try(f)
+	if p == nil {
+		return true
+	}
+	kind := "panic"
+	if e, ok := p.Value.(runtime.Error); ok {
+		if fa, isAddr := e.(interface{ Addr() uintptr }); isAddr {
+			kind = "oob"
+			for _, b := range ends {
+				if e := endOf(b); over > 0 && e != 0 && fa.Addr() >= e && fa.Addr() < e+uintptr(over) {
+					c.Known(shortTagID, "oob", "%s: memory fault %d byte(s) behind the end of the buffer that holds ciphertext||tag (it ends at a guard page): the assembly accesses the final partial block as a whole 16-byte block", what, fa.Addr()-e+1)
+					return false
+				}
+			}
 		}
 	}
+	st := p.Stack
+	if len(st) > 3000 {
+		st = st[:3000]
+	}
+	c.Detail("stack", st)
+	c.Fail(kind, "%s: panic: %v", what, p.Value)
+	return false
 }
 
 // unchanged checks that an input buffer still holds what was passed.
@@ -309,7 +408,7 @@ func unchanged(c *mon.Case, what, name string, now, orig []byte) {
 // and checks: Seal == want (reference), append-only, inputs untouched, guards;
 // Open(want) == pt with the same obligations.
 func sealOpen(c *mon.Case, ar *arena, s spec, a cipher.AEAD, nonce, pt, aad, want []byte, ms, mo dstMode, hiIn, hiOut bool) {
-	g := ar.pick(len(pt) + len(aad) + s.ts + 200)
+	g := ar.pick(max(len(pt), len(aad)) + s.ts + 200)
 	what := fmt.Sprintf("%v Seal(dst=%v)", s, ms)
 	// ---- Seal
 	nn, aa := in(g.nonce, nonce, hiIn), in(g.aad, aad, hiIn)
@@ -318,8 +417,9 @@ func sealOpen(c *mon.Case, ar *arena, s spec, a cipher.AEAD, nonce, pt, aad, wan
 	if p.mode != dInPlace {
 		src = in(g.pt, pt, hiIn)
 	}
+	over := shortTagOverrun(a, s.ts, len(pt))
 	var ret []byte
-	if c.Call(what, func() { ret = a.Seal(p.dst, nn, src, aa) }) {
+	if callLib(c, what, func() { ret = a.Seal(p.dst, nn, src, aa) }, over, p.buf) {
 		c.CheckGuards(what, g.nonce, g.aad, g.dst, g.pt)
 		c.Event("seal_vs_ref", 1)
 		c.Event("seal_dst_"+p.mode.String(), 1)
@@ -328,7 +428,7 @@ func sealOpen(c *mon.Case, ar *arena, s spec, a cipher.AEAD, nonce, pt, aad, wan
 		} else {
 			c.Fail("mismatch", "%s: result shorter than the prefix", what)
 		}
-		p.checkAfter(c, what, ret, true)
+		p.checkAfter(c, what, ret, true, over)
 		unchanged(c, what, "nonce", nn, nonce)
 		unchanged(c, what, "additional data", aa, aad)
 		if p.mode != dInPlace {
@@ -345,7 +445,7 @@ func sealOpen(c *mon.Case, ar *arena, s spec, a cipher.AEAD, nonce, pt, aad, wan
 	}
 	var back []byte
 	var err error
-	if c.Call(what, func() { back, err = a.Open(q.dst, nn, ct, aa) }) {
+	if callLib(c, what, func() { back, err = a.Open(q.dst, nn, ct, aa) }, over, ct, q.buf) {
 		c.CheckGuards(what, g.nonce, g.aad, g.out, g.ct)
 		c.Event("open_roundtrip", 1)
 		c.Event("open_dst_"+q.mode.String(), 1)
@@ -356,7 +456,7 @@ func sealOpen(c *mon.Case, ar *arena, s spec, a cipher.AEAD, nonce, pt, aad, wan
 		} else {
 			c.Eq(what, back[len(q.prefix):], pt)
 		}
-		q.checkAfter(c, what, back, err == nil)
+		q.checkAfter(c, what, back, err == nil, 0)
 		unchanged(c, what, "nonce", nn, nonce)
 		unchanged(c, what, "additional data", aa, aad)
 		if q.mode != dInPlace {
@@ -406,10 +506,14 @@ func tamperOne(c *mon.Case, g *bufs, s spec, a cipher.AEAD, what string, k int, 
 	var back []byte
 	var err error
 	c.Event("tamper_opens", 1)
-	if !c.Call(what, func() { back, err = a.Open(q.dst, nn, ct, aa) }) {
+	if !callLib(c, what, func() { back, err = a.Open(q.dst, nn, ct, aa) }, shortTagOverrun(a, s.ts, len(sealed)-s.ts), ct, q.buf) {
 		return
 	}
-	c.CheckGuards(what, g.nonce, g.aad, g.out, g.ct)
+	c.CheckGuards(what, g.out, g.ct)
+	if k%16 == 0 {
+		// the nonce and aad slices keep their size during a sweep, so a stray write next to them stays visible
+		c.CheckGuards(what, g.nonce, g.aad)
+	}
 	if err == nil {
 		c.Event("tamper_accepted", 1)
 		c.Detail("nonce", nonce)
@@ -445,7 +549,7 @@ func tamperOne(c *mon.Case, g *bufs, s spec, a cipher.AEAD, what string, k int, 
 				c.Fail("accept", "%v failed Open left non-zero bytes in the output region dst[%d:%d] (%s)", s, pl, pl+region, what)
 			}
 		}
-		q.checkAfter(c, what, nil, false)
+		q.checkAfter(c, what, nil, false, 0)
 	}
 	unchanged(c, what, "nonce", nn, nonce)
 	unchanged(c, what, "additional data", aa, aad)
@@ -459,7 +563,7 @@ func tamperOne(c *mon.Case, g *bufs, s spec, a cipher.AEAD, what string, k int, 
 // few length changes. stride > 1 samples positions of long fields (offset drawn
 // from the case PRNG).
 func tamperSweep(c *mon.Case, ar *arena, s spec, a cipher.AEAD, nonce, sealed, aad, pt []byte, stride int) {
-	g := ar.pick(len(sealed) + len(aad) + 200)
+	g := ar.pick(max(len(sealed), len(aad)) + 200)
 	k := 0
 	fields := []struct {
 		name string
@@ -485,12 +589,10 @@ func tamperSweep(c *mon.Case, ar *arena, s spec, a cipher.AEAD, nonce, sealed, a
 				tamperOne(c, g, s, a, what, k, args[1], args[0], args[2], pt)
 				c.Event("tamper_"+f.name, 1)
 				k++
-				if c.Failed() && k > 50 {
-					return // enough witnesses
-				}
 			}
 		}
 	}
+	c.CheckGuards("tamper sweep", g.nonce, g.aad)
 	for t := 1; t <= s.ts && t <= len(sealed); t++ {
 		tamperOne(c, g, s, a, fmt.Sprintf("truncate ct||tag by %d", t), k, nonce, sealed[:len(sealed)-t], aad, pt)
 		c.Event("tamper_truncate", 1)
@@ -512,4 +614,5 @@ func tamperSweep(c *mon.Case, ar *arena, s spec, a cipher.AEAD, nonce, sealed, a
 		k++
 	}
 	c.Event("tamper_length_changes", 3)
+	c.CheckGuards("tamper sweep", g.nonce, g.aad, g.out, g.ct)
 }
